@@ -7,6 +7,8 @@ import (
 	"encoding/binary"
 	"encoding/json"
 	"fmt"
+	"github.com/theparanoids/crypki/proto"
+	"github.com/theparanoids/ysshra/csr"
 	"io"
 	"os"
 	"sort"
@@ -76,13 +78,45 @@ type c03World struct {
 	label    string // handler option key_label ("" = not configured)
 	shim     bool   // the requester's agent is the project's own shim agent in front of the key store
 	addr     string
+	multi    bool // the handler's agent key carries two CSRs (csr.AgentKey.CSRs is a list; e.g. one per CA key algorithm)
 	c        *ev.Ctx
+}
+
+// multiHandler is the real regular handler whose agent keys ask for two certificates each: the same request twice,
+// the second under another key id. Authentication, key generation and AddCertsToAgent are the real handler's.
+type multiHandler struct{ gensign.Handler }
+
+type multiKey struct {
+	csr.AgentKey
+	csrs []*proto.SSHCertificateSigningRequest
+}
+
+func (k *multiKey) CSRs() []*proto.SSHCertificateSigningRequest { return k.csrs }
+
+func (h *multiHandler) Generate(p *csr.ReqParam) ([]csr.AgentKey, error) {
+	keys, err := h.Handler.Generate(p)
+	if err != nil {
+		return keys, err
+	}
+	var out []csr.AgentKey
+	for _, k := range keys {
+		mk := &multiKey{AgentKey: k}
+		for _, r := range k.CSRs() {
+			mk.csrs = append(mk.csrs, r, &proto.SSHCertificateSigningRequest{KeyMeta: r.KeyMeta, Principals: r.Principals, PublicKey: r.PublicKey,
+				Validity: r.Validity, KeyId: r.KeyId + " (second CA key)", CriticalOptions: r.CriticalOptions, Extensions: r.Extensions, Priority: r.Priority})
+		}
+		out = append(out, mk)
+	}
+	return out, nil
 }
 
 func newC03World(c *ev.Ctx, root string) bfs.World {
 	x := &c03World{genOf: map[string]int{}, foreign: map[string]string{}, thorough: c.Thorough(), c: c}
 	if strings.HasSuffix(root, "/shim") {
 		x.shim, root = true, strings.TrimSuffix(root, "/shim")
+	}
+	if strings.HasSuffix(root, "/multi") {
+		x.multi, root = true, strings.TrimSuffix(root, "/multi")
 	}
 	if i := strings.Index(root, "/label="); i >= 0 {
 		x.label, root = root[i+len("/label="):], root[:i]
@@ -163,6 +197,9 @@ func (x *c03World) Enabled() []bfs.Op {
 	// the CA grants less than requested to some certificates of one reply (every order of short and full validities)
 	ops = append(ops, bfs.Op{Name: "ok", Arg: "2/none/short-first", Arg2: "43200"}, bfs.Op{Name: "ok", Arg: "2/none/short-last", Arg2: "43200"},
 		bfs.Op{Name: "ok", Arg: "3/long/short-middle", Arg2: "315360000"}, bfs.Op{Name: "ok", Arg: "3/none/short-first", Arg2: "43200"})
+	if x.multi {
+		ops = append(ops, bfs.Op{Name: "fail-ca-second"}) // the CA signs the first request of the key and fails the second
+	}
 	if x.shim {
 		// request indices at the key store differ behind the shim; agent faults under a shim are C10's subject
 		return append(ops, bfs.Op{Name: "fail-auth"}, bfs.Op{Name: "fail-generate-noslot"}, bfs.Op{Name: "fail-ca"})
@@ -273,6 +310,8 @@ func (x *c03World) Apply(op bfs.Op) (fs []bfs.Finding) {
 		e.ua.Plan[base+1] = uagent.FaultFailure
 	case "fail-ca":
 		e.ca.Script[len(e.ca.Reqs)] = "err"
+	case "fail-ca-second":
+		e.ca.Script[len(e.ca.Reqs)+1] = "err"
 	case "fail-ca-panic":
 		e.ca.Script[len(e.ca.Reqs)] = "panic"
 	case "fail-agent-list":
@@ -292,7 +331,11 @@ func (x *c03World) Apply(op bfs.Op) (fs []bfs.Finding) {
 		}
 	}
 	addsBefore, caBefore := len(e.ua.Ring.AddLog), len(e.ca.Issued)
-	err, esc := e.run(defaultParams("alice"), []gensign.Handler{h})
+	var hh gensign.Handler = h
+	if x.multi {
+		hh = &multiHandler{Handler: h}
+	}
+	err, esc := e.run(defaultParams("alice"), []gensign.Handler{hh})
 	if esc != "" {
 		add("panic-escaped:"+ev.PanicSite(esc), esc)
 		return
@@ -359,9 +402,12 @@ func (x *c03World) Apply(op bfs.Op) (fs []bfs.Finding) {
 	// the success post-conditions below apply in full (usable certificates, at most one generation)
 	if err == nil {
 		x.c.Nontrivial(x.Key() + op.Arg)
-		issued := e.ca.Issued[len(e.ca.Issued)-1]
-		if len(e.ca.Issued) != caBefore+1 {
-			add("harness:ca-calls", "expected exactly one CA call")
+		var issued []ssh.PublicKey
+		for _, is := range e.ca.Issued[caBefore:] {
+			issued = append(issued, is...)
+		}
+		if wantCalls := map[bool]int{false: 1, true: 2}[x.multi]; len(e.ca.Issued) != caBefore+wantCalls {
+			add("harness:ca-calls", fmt.Sprintf("expected exactly %d CA call(s), saw %d", wantCalls, len(e.ca.Issued)-caBefore))
 		}
 		issuedSet := map[string]bool{}
 		for _, ct := range issued {
@@ -414,7 +460,7 @@ func (x *c03World) Apply(op bfs.Op) (fs []bfs.Finding) {
 
 func checkC03(c *ev.Ctx) {
 	defer cleanupScratch()
-	c.Rule("E1 BFS over sequences of real gensign.Run executions against one agent: transitions = success with the CA returning 1..3 certificates (or, successfully, none / only plain public keys) x comment lists {none, shorter with empty strings, longer} and validity {1 s, 12 h, 10 y}, incl. replies in which the CA grants 10 min to the first / middle / last certificate only; failure at authentication, at private-key insertion, missing key slot, CA error, agent failure at list / certificate add (thorough: remove, CA panic); roots = all 32 subsets of {plain key, foreign certificate, 3 near-miss comments} over a plain key store, plus 6 roots with the documented key_label option set, plus 6 behind the real shim agent (virtual clock; fault-free and pre-signing-failure transitions); state = canonical identity multiset (class, generation age, comment, lifetime). non-trivial = successful run, or failed run with certificates at stake; distinct by (state, transition)")
+	c.Rule("E1 BFS over sequences of real gensign.Run executions against one agent: transitions = success with the CA returning 1..3 certificates (or, successfully, none / only plain public keys) x comment lists {none, shorter with empty strings, longer} and validity {1 s, 12 h, 10 y}, incl. replies in which the CA grants 10 min to the first / middle / last certificate only; failure at authentication, at private-key insertion, missing key slot, CA error, agent failure at list / certificate add (thorough: remove, CA panic); roots = all 32 subsets of {plain key, foreign certificate, 3 near-miss comments} over a plain key store, plus 6 roots with the documented key_label option set, plus 6 behind the real shim agent (virtual clock; fault-free and pre-signing-failure transitions), plus 3 in which the real handler's key carries two CSRs (extra transition: the CA signs the first and fails the second); state = canonical identity multiset (class, generation age, comment, lifetime). non-trivial = successful run, or failed run with certificates at stake; distinct by (state, transition)")
 	c.Assume("identities whose comment contains the handler name inside a longer word are don't-care", "lifetime constraints are read from the add-identity requests as parsed by x/crypto's agent server")
 	var roots []string
 	for m := 0; m < 32; m++ {
@@ -429,6 +475,8 @@ func checkC03(c *ev.Ctx) {
 	for _, lb := range []string{"corp-ssh", "x-paranoids.regular-y", "Paranoids.Regular"} {
 		roots = append(roots, "0/label="+lb, "31/label="+lb)
 	}
+	// the same histories with a handler whose key asks for two certificates (two CSRs per key)
+	roots = append(roots, "0/multi", "31/multi", "2/multi/shim")
 	depth := 3
 	if c.Thorough() {
 		depth = 5
